@@ -521,6 +521,131 @@ Proof.
               rewrite psize_norm. exact Hpn0.
            ++ destruct (0 <? sum_size (c_in o)) eqn:E0.
               ** left. cbn [andb] in E2. lia.
-              ** right. assert (c_in o = []) by (apply sum_size_zero; [assumption|lia]).
-                 rewrite Hin2, H0. cbn. lia.
+              ** right. assert (Hnil : c_in o = []) by (apply sum_size_zero; [assumption|lia]).
+                 rewrite Hin2, Hnil. cbn. lia.
+Qed.
+
+(* ------------------------------------------------------------------ 4. one transmission *)
+
+Definition src_ok (reg : Z -> bool) (i : Z) (p : packet) : Prop :=
+  packable p = true /\ (is_own i p = true \/ reg (p_dev p) = true).
+
+Lemma src_ok_in_ok reg i p : i <> 0 -> src_ok reg i p -> in_ok reg i (norm i p).
+Proof.
+  intros Hi [Hp Hr]. unfold in_ok. rewrite packable_norm. split; [assumption|].
+  split; [apply norm_dev_nz; assumption|].
+  destruct (is_own i p) eqn:E.
+  - left. apply norm_own_dev. exact E.
+  - right. rewrite norm_foreign by assumption. destruct Hr; [discriminate|assumption].
+Qed.
+
+Lemma src_ok_retag reg c i p : src_ok reg i p -> src_ok reg i (retag c p).
+Proof. unfold src_ok. rewrite packable_retag, is_own_retag, p_dev_retag. exact (fun x => x). Qed.
+
+Lemma nonnop_map_untag_norm i l :
+  nonnop (map (fun p => untag (norm i p)) l) = map (fun p => untag (norm i p)) (nonnop l).
+Proof.
+  induction l as [|p l IH]; [reflexivity|]. unfold nonnop in *. cbn [map filter].
+  rewrite is_nop_untag, is_nop_norm. destruct (negb (is_nop p)); cbn [map]; rewrite IH; reflexivity.
+Qed.
+
+Lemma map_norm_tags i l : flat_map p_tags (map (norm i) l) = flat_map p_tags l.
+Proof. induction l as [|p l IH]; [reflexivity|]. cbn [map flat_map]. rewrite p_tags_norm, IH. reflexivity. Qed.
+
+Lemma next_packet_spec reg F NP i n q t o k rest :
+  next_packet F NP i (Some n) q t = (o, k, rest) -> i <> 0 -> NP < 65536 ->
+  Forall (src_ok reg i) (n :: q) ->
+  exists tx u kept,
+    o = Some tx /\ q = u ++ optl k ++ rest /\
+    map untag (tx_packets tx) = map (fun p => untag (norm i p)) kept /\
+    nonnop kept = nonnop (n :: u) /\ incl kept (n :: u) /\
+    wf_tx reg i tx /\
+    (forall x, In x (tx_tags tx) -> In x t \/ exists v, In v kept /\ In x (p_tags v)) /\
+    (forall v x, In v kept -> In x (p_tags v) -> In x (tx_tags tx)) /\
+    (match tx with TMulti c => c_in c = map (norm i) kept | TSingle _ => True end).
+Proof.
+  intros H Hi HNP Hall. unfold next_packet in H.
+  inversion Hall as [|? ? Hn Hq]; subst.
+  destruct ((NP <=? 1) || is_nil q) eqn:Efast.
+  - (* fast path *)
+    destruct (is_own i n) eqn:Eown.
+    + inversion H; subst. exists (TSingle (set_tags (norm i n) (p_tags n ++ t))), [], [n].
+      cbn [optl app tx_packets map tx_tags set_tags p_tags wf_tx p_dev].
+      repeat split; try reflexivity.
+      * intros x Hx. exact Hx.
+      * apply norm_own_dev. exact Eown.
+      * rewrite packable_set_tags, packable_norm. apply Hn.
+      * intros x Hx. apply in_app_or in Hx. destruct Hx as [Hx|Hx]; [right|left; exact Hx].
+        exists n. split; [left; reflexivity|exact Hx].
+      * intros v x [Hv|[]] Hx. subst v. apply in_or_app. left. exact Hx.
+    + destruct Hn as [Hpn Hrn].
+      rewrite (write_unpack_packable _ n Hpn) in H. cbn [c_dev c_fl c_tags c_in app] in H.
+      inversion H; subst.
+      eexists (TMulti _), [], [n]. cbn [optl app tx_packets map tx_tags c_tags wf_tx c_dev c_fl c_in].
+      rewrite set_flags_len, set_flags_mdev. cbn [fl_multi_mdev f_len f_mdev Z.add].
+      rewrite (norm_foreign i n Eown).
+      repeat split; try reflexivity; try (cbn; lia).
+      * intros x Hx. exact Hx.
+      * constructor; [|constructor]. rewrite <- (norm_foreign i n Eown).
+        apply src_ok_in_ok; [assumption|]. split; assumption.
+      * intro Hc. discriminate.
+      * intros x Hx. apply in_app_or in Hx. destruct Hx as [Hx|Hx]; [right|left; exact Hx].
+        exists n. split; [left; reflexivity|exact Hx].
+      * intros v x [Hv|[]] Hx. subst v. apply in_or_app. left. exact Hx.
+  - (* the loop *)
+    apply orb_false_elim in Efast. destruct Efast as [E1 E2].
+    destruct (np_loop F i (Z.to_nat NP) (n :: q) 0 false (mkC i fl_multi [] [])) as [[o' k'] rest'] eqn:EL.
+    inversion H; subst. clear H.
+    assert (Hpk : Forall (fun p => packable p = true) (n :: q)).
+    { rewrite Forall_forall in *. intros x Hx. apply (Hall x Hx). }
+    destruct (np_loop_struct _ _ _ _ _ _ _ _ _ _ EL Hpk)
+      as [used [kept [H1 [H2 [H3 [H4 [H5 [H6 [H7 H8]]]]]]]]].
+    cbn [c_in c_tags c_dev app] in H2, H3, H4.
+    assert (Hfuel : Z.to_nat NP <> O) by lia.
+    specialize (H8 eq_refl Hfuel ltac:(discriminate)).
+    destruct used as [|n' u]; [congruence|].
+    cbn [app] in H1. inversion H1; subst n'.
+    destruct (np_loop_flags _ _ _ _ _ _ _ _ _ _ EL Hpk eq_refl eq_refl) as [G1 [G2 G3]].
+    { cbn [c_in]. rewrite len_nil. lia. }
+    { intros _. constructor. }
+    cbn [c_in] in G2. rewrite len_nil in G2.
+    assert (Hkept_ok : Forall (in_ok reg i) (map (norm i) kept)).
+    { rewrite Forall_forall. intros v Hv. apply in_map_iff in Hv. destruct Hv as [p [Hp1 Hp2]]. subst v.
+      apply src_ok_in_ok; [assumption|]. rewrite Forall_forall in Hall. apply Hall.
+      apply H6 in Hp2. destruct Hp2 as [Hp2|Hp2]; [left; exact Hp2|right].
+      rewrite H3. apply in_or_app. left. exact Hp2. }
+    assert (Hmulti : wf_tx reg i (TMulti o')).
+    { cbn [wf_tx]. rewrite H2. split; [assumption|]. split; [rewrite <- H2; assumption|].
+      split; [rewrite <- H2; lia|]. split; [assumption|]. rewrite <- H2. exact G3. }
+    assert (Htags : forall x, In x (c_tags o') <-> exists v, In v kept /\ In x (p_tags v)).
+    { intro x. rewrite H3'. apply in_flat_map. }
+    unfold unwrap.
+    destruct ((f_len (c_fl o') =? 1) && negb (f_mdev (c_fl o'))) eqn:EU.
+    + apply andb_prop in EU. destruct EU as [EU1 EU2].
+      destruct (c_in o') as [|v [|w r]] eqn:Ein.
+      * exists (TMulti o'), u, kept. rewrite Ein in H2.
+        repeat split; try assumption; try (rewrite <- H2, <- Ein; reflexivity).
+        -- cbn [tx_packets]. rewrite Ein, H2. rewrite map_map. reflexivity.
+        -- intros x Hx. right. apply Htags. exact Hx.
+        -- intros v x Hv Hx. apply Htags. exists v. split; assumption.
+        -- rewrite Ein. exact H2.
+      * destruct kept as [|p [|p2 kr]]; try discriminate. cbn [map] in H2. inversion H2; subst v.
+        exists (TSingle (norm i p)), u, [p]. cbn [tx_packets map tx_tags wf_tx].
+        repeat split; try assumption; try reflexivity.
+        -- destruct (f_mdev (c_fl o')); [discriminate|]. specialize (G3 eq_refl). rewrite Ein in G3.
+           inversion G3; assumption.
+        -- rewrite Ein in Hkept_ok. cbn [map] in Hkept_ok. inversion Hkept_ok as [|? ? Hk _]. apply Hk.
+        -- intros x Hx. right. exists p. split; [left; reflexivity|]. rewrite p_tags_norm in Hx. exact Hx.
+        -- intros v x [Hv|[]] Hx. subst v. rewrite p_tags_norm. exact Hx.
+      * exists (TMulti o'), u, kept.
+        repeat split; try assumption.
+        -- cbn [tx_packets]. rewrite Ein, H2. rewrite map_map. reflexivity.
+        -- intros x Hx. right. apply Htags. exact Hx.
+        -- intros v0 x Hv Hx. apply Htags. exists v0. split; assumption.
+        -- rewrite Ein. exact H2.
+    + exists (TMulti o'), u, kept.
+      repeat split; try assumption.
+      * cbn [tx_packets]. rewrite H2. rewrite map_map. reflexivity.
+      * intros x Hx. right. apply Htags. exact Hx.
+      * intros v0 x Hv Hx. apply Htags. exists v0. split; assumption.
 Qed.
